@@ -73,6 +73,9 @@ def _traced():
         U.UMNDirHandler.prep_entriesappend.__code__: (14, None, 1),
         # (loadcache/savecache touch shared state only through the cache file, whose every
         #  stat/open/read/write/close is a point of the VFS seam already)
+        # the cache writer line by line: whatever it does between starting and finishing the file
+        # (temporary names, renames) happens in the directory other clients are enumerating
+        D.DirHandler.savecache.__code__: (None, None),
         B.VFS_Real.copyto.__code__: (None, None),
         HT.HTTPProtocol.headerslurp.__code__: (5, None),  # the per-connection cache test and the first header read
     }
@@ -380,9 +383,85 @@ def _tls_burst(kind):
     return bad
 
 
+def _stalled(kind, nstalled=40):
+    """A real server with many connected clients that send nothing: every further client is still
+    answered promptly (nobody's silence is anybody else's problem)."""
+    import threading
+
+    import pygopherd.server as S
+
+    root = rig.fresh_dir("c14s")
+    rig.build_tree(root, _spec())
+    config = rig.make_config(root, handlers="default", cachetime=0)
+    rig.init_mime(config)
+    rig.reset_lazies()
+    cls = S.ForkingTCPServer if kind == "fork" else S.ThreadingTCPServer
+    server = cls(config, ("127.0.0.1", 0), S.GopherRequestHandler)
+    if kind == "thread":
+        server.daemon_threads = True
+    else:
+        server.max_children = 1000
+    bad = []
+    parent = os.getpid()
+    t = threading.Thread(target=lambda: server.serve_forever(poll_interval=0.02), daemon=True)
+    t.start()
+    silent = []
+    try:
+        for i in range(nstalled):
+            silent.append(socket.create_connection(server.server_address, timeout=10))
+        time.sleep(0.3)
+        for label, data, want in (("gopher", b"/d/small.txt\r\n", b"small\n"), ("http", b"GET /d/small.txt HTTP/1.0\r\n\r\n", b"small\n"), ("spartan", b"gopher.test /d/small.txt 0\r\n", b"small\n")):
+            s = socket.create_connection(server.server_address, timeout=5)
+            s.settimeout(5)
+            buf = b""
+            try:
+                s.sendall(data)
+                while True:
+                    ch = s.recv(65536)
+                    if not ch:
+                        break
+                    buf += ch
+            except OSError as e:
+                bad.append(("starved", "with %d silent clients connected a %s client got no answer within 5 s (%s); received %r" % (nstalled, label, e, buf[:60])))
+                s.close()
+                break
+            s.close()
+            if not buf.endswith(want):
+                bad.append(("wrong-answer", "with %d silent clients connected a %s client got %r" % (nstalled, label, buf[:80])))
+    finally:
+        for s in silent:
+            s.close()
+        if os.getpid() != parent:
+            os._exit(0)
+        server.shutdown()
+        t.join(5)
+        if kind == "fork":
+            deadline = time.time() + 5
+            while time.time() < deadline and server.active_children:
+                server.service_actions()
+                time.sleep(0.02)
+            for pid in list(server.active_children or ()):
+                try:
+                    os.kill(pid, 9)
+                except OSError:
+                    pass
+        server.server_close()
+        rig.rmtree(root)
+    return bad
+
+
 def _shard_fork(shard, seed, tier):
     part = core.Partial()
     for kind, order, actions in shard:
+        if order == "stalled":
+            bad = _stalled(kind)
+            part.evaluations += 1
+            part.transitions += 43
+            part.state("stalled", kind)
+            part.outcome("stalled", kind, tuple(b[0] for b in bad))
+            for cls, det in bad:
+                part.violation("server|%s|stalled|%s" % (kind, cls), det, {"kind": "server", "skind": kind, "order": "stalled", "actions": []})
+            continue
         if order == "tls":
             bad = _tls_burst(kind)
             part.evaluations += 1
@@ -405,6 +484,9 @@ def _shard_fork(shard, seed, tier):
 
 def replay(case):
     part = core.Partial()
+    if case["kind"] == "server" and case["order"] == "stalled":
+        bad = _stalled(case["skind"])
+        return bad[0] if bad else None
     if case["kind"] == "server" and case["order"] == "tls":
         bad = _tls_burst(case["skind"])
         return bad[0] if bad else None
@@ -467,6 +549,7 @@ def run(ck):
                         continue
                     fitems.append((kind, order, actions))
     fitems += [("fork", "tls", ()), ("thread", "tls", ())]
+    fitems += [("fork", "stalled", ()), ("thread", "stalled", ())]
     ck.pmap(_shard_fork, core.chunks(fitems, core.NPROC))
     ck.notes.append("schedules explored: %d" % p.extra.get("schedules", 0))
     ck.rule = ("all unordered pairs (thorough: also triples over the first 6) of a %d-request menu x {cold start with lazies reset, warm}, every interleaving with <= %d preemptions; scheduling points at cache-file operations, directory enumeration and every traced line "
